@@ -44,7 +44,7 @@ Theorem C16_empty_after_item_refuted :
   composes_block T_decl_int T_empty = true.
 Proof. exact empty_after_item_refuted. Qed.
 
-Example C16_nonvacuous : (6889 <=? List.length id_pairs)%nat = true /\
+Example C16_nonvacuous : (14400 <=? List.length id_pairs)%nat = true /\
   (6551 <=? List.length (filter (fun '(i, j) => negb (k_c16 i j)) id_pairs))%nat = true.
 Proof. vm_compute. auto. Qed.
 
